@@ -5,6 +5,7 @@
 #include "logger.h"
 #include "transposition_table.h"
 #include "chessplusplusConfig.h"
+#include "verif_hooks.h"
 
 namespace engine
 {
@@ -243,6 +244,7 @@ bool Uci::moves_command(std::istringstream& istream)
 
 void start_searching(Uci* uci)
 {
+    VERIF_THREAD_SCOPE();
     uint64_t key = PolyglotBook::hash(uci->position);
     if (uci->polyglot.contains(key))
     {
@@ -294,6 +296,7 @@ bool Uci::go_command(std::istringstream& istream)
 
     search = std::make_shared<Search>(position, limits, scorer, ttable);
 
+    VERIF_SPAWN();
     std::thread search_thread(start_searching, this);
     search_thread.detach();
 
